@@ -17,9 +17,11 @@ import (
 	"io"
 	"log"
 	"os"
+	"os/exec"
 	"path/filepath"
 	"strconv"
 	"strings"
+	"syscall"
 	"testing"
 	"time"
 
@@ -235,6 +237,122 @@ func (v *verifStore) op(tok string) (res string) {
 	return "bad-op"
 }
 
+// verifRunSegment runs the operations of one process lifetime.  openObs is true when the segment
+// follows a kill: the result of opening the database is the observation of that kill operation.
+func verifRunSegment(dir string, proto bool, openObs bool, toks []string) []string {
+	var res []string
+	s, err := NewLevelDBStore(dir, false, proto)
+	if s == nil {
+		panic(fmt.Sprintf("open failed: %v", err))
+	}
+	if openObs {
+		if err != nil {
+			res = append(res, "err")
+		} else {
+			res = append(res, "ok")
+		}
+	}
+	v := &verifStore{s: s, dir: dir}
+	for _, tok := range toks {
+		res = append(res, v.op(tok))
+	}
+	verifCurrent = v
+	return res
+}
+
+var verifCurrent *verifStore
+
+// TestVerifStoreChild is one process lifetime of a program with kill operations: it runs its
+// segment, makes its observations durable and, unless it is the last segment, SIGKILLs itself
+// with the database open (no Close, no flush beyond what the store did itself).
+func TestVerifStoreChild(t *testing.T) {
+	if os.Getenv("VERIF_CHILD_OPS") == "" {
+		t.Skip("only run as a child of TestVerifStore")
+	}
+	log.SetOutput(io.Discard)
+	off, _ := strconv.ParseUint(os.Getenv("VERIF_CHILD_OFFSET"), 10, 64)
+	robust.MessageOffset = off
+	var toks []string
+	ob, err := os.ReadFile(os.Getenv("VERIF_CHILD_OPS")) // a file: operations can exceed the size limit of an environment string
+	if err != nil {
+		t.Fatal(err)
+	}
+	toks = strings.Fields(string(ob))
+	res := verifRunSegment(os.Getenv("VERIF_CHILD_DIR"), os.Getenv("VERIF_CHILD_MODE") == "p", os.Getenv("VERIF_CHILD_OPENOBS") == "1", toks)
+	f, err := os.Create(os.Getenv("VERIF_CHILD_OUT"))
+	if err != nil {
+		t.Fatal(err)
+	}
+	fmt.Fprintln(f, strings.Join(res, " ")+" .")
+	f.Sync()
+	f.Close()
+	if os.Getenv("VERIF_CHILD_KILL") == "1" {
+		syscall.Kill(os.Getpid(), syscall.SIGKILL)
+		time.Sleep(time.Minute)
+	}
+	if verifCurrent != nil && verifCurrent.s != nil {
+		verifCurrent.s.Close()
+	}
+}
+
+// verifRunWithKills splits a program at its kill:<mode> operations and runs every part in a child
+// process of this test binary on the same directory.
+func verifRunWithKills(dir string, mode string, offset string, toks []string, n int) []string {
+	var res []string
+	openObs := false
+	for len(toks) > 0 || openObs {
+		seg := toks
+		next, kill := "", false
+		for i, tok := range toks {
+			if strings.HasPrefix(tok, "kill:") {
+				seg, next, kill = toks[:i], tok[len("kill:"):], true
+				toks = toks[i+1:]
+				break
+			}
+		}
+		if !kill {
+			toks = nil
+		}
+		outp := filepath.Join(filepath.Dir(dir), fmt.Sprintf("child%d.out", n))
+		os.Remove(outp)
+		ops := filepath.Join(filepath.Dir(dir), fmt.Sprintf("child%d.ops", n))
+		if err := os.WriteFile(ops, []byte(strings.Join(seg, " ")), 0600); err != nil {
+			panic(err)
+		}
+		cmd := exec.Command(os.Args[0], "-test.run=^TestVerifStoreChild$")
+		k := "0"
+		if kill {
+			k = "1"
+		}
+		oo := "0"
+		if openObs {
+			oo = "1"
+		}
+		cmd.Env = append(os.Environ(), "VERIF_CHILD_OPS="+ops, "VERIF_CHILD_DIR="+dir, "VERIF_CHILD_MODE="+mode,
+			"VERIF_CHILD_OFFSET="+offset, "VERIF_CHILD_OUT="+outp, "VERIF_CHILD_KILL="+k, "VERIF_CHILD_OPENOBS="+oo)
+		cmd.Run() // a killed child reports "signal: killed"; what counts is the observation file
+		b, err := os.ReadFile(outp)
+		if err != nil {
+			res = append(res, "child-failed")
+			return res
+		}
+		fs := strings.Fields(string(b))
+		if len(fs) == 0 || fs[len(fs)-1] != "." {
+			res = append(res, "child-failed")
+			return res
+		}
+		res = append(res, fs[:len(fs)-1]...)
+		openObs = kill
+		if kill {
+			mode = next
+		}
+		if !kill {
+			break
+		}
+	}
+	return res
+}
+
 func TestVerifStore(t *testing.T) {
 	in, err := os.Open(os.Getenv("VERIF_IN"))
 	if err != nil {
@@ -263,17 +381,21 @@ func TestVerifStore(t *testing.T) {
 		n++
 		robust.MessageOffset = verifU(f[2])
 		dir := filepath.Join(base, fmt.Sprintf("db%d", n))
-		s, err := NewLevelDBStore(dir, false, f[3] == "p")
-		if err != nil {
-			t.Fatal(err)
-		}
-		v := &verifStore{s: s, dir: dir}
 		res := []string{"store"}
+		hasKill := false
 		for _, tok := range f[5:] {
-			res = append(res, v.op(tok))
+			if strings.HasPrefix(tok, "kill:") {
+				hasKill = true
+			}
 		}
-		if v.s != nil {
-			v.s.Close()
+		if hasKill {
+			res = append(res, verifRunWithKills(dir, f[3], f[2], f[5:], n)...)
+		} else {
+			res = append(res, verifRunSegment(dir, f[3] == "p", false, f[5:])...)
+			if verifCurrent != nil && verifCurrent.s != nil {
+				verifCurrent.s.Close()
+			}
+			verifCurrent = nil
 		}
 		os.RemoveAll(dir)
 		fmt.Fprintln(w, strings.Join(res, " "))
